@@ -152,6 +152,8 @@ def _tri_fan(rng, n, **_):
     """A fan of k triangles around a centre vertex (closed or open)."""
     k = max(3, n + 2)
     closed = rng.random() < 0.5
+    if closed:
+        k = max(5, k)   # every sector stays below pi
     ang = np.sort(np.array([rng.uniform(0, 1) for _ in range(k)]))
     ang = (ang + np.arange(k)) / k * (2 * np.pi if closed else np.pi * 1.2)
     rad = np.array([rng.uniform(0.6, 1.4) for _ in range(k)])
@@ -351,7 +353,13 @@ def _hex_orders():
 
 
 _HEX_ORDERS = _hex_orders()
-_WEDGE_ORDERS = [[0, 1, 2, 3, 4, 5], [1, 2, 0, 4, 5, 3], [2, 0, 1, 5, 3, 4]]
+# Prisms keep the generated local order.  scikit-fem identifies a triangular
+# prism face by the 4-tuple (a, b, c, a) with the first local vertex repeated,
+# so two prisms that see a shared triangle with different first vertices get
+# two different facets for it (derived connectivity, property C11's subject,
+# not claimed here; DESIGN.md section 7).  Rotated prisms would make every
+# C18 verdict on prisms a statement about that instead.
+_WEDGE_ORDERS = [[0, 1, 2, 3, 4, 5]]
 
 
 def raw(recipe):
